@@ -32,7 +32,7 @@ structure Match where
   whole : Span
   groups : List (Option Span) := []
   names : List (Str × Nat) := []
-deriving Repr, Inhabited
+deriving Repr, DecidableEq, Inhabited
 
 structure Flags where
   ignoreCase : Bool := false
